@@ -159,6 +159,7 @@ structure Doc where
   targetNamespaces : List Ns := []
   current : Option Ns := none
   nodes : List RNode := []               -- in push order
+  knownNodes : List RNode := []          -- what the importer had read before; lookups only
   messages : List Msg := []
   ports : List Port := []
   bindings : List Binding := []
